@@ -251,6 +251,9 @@ pub struct WorkStealingExecutor {
 struct ExecutorStatsInner {
     total_executed: AtomicUsize,
     active_tasks: AtomicUsize,
+    /// Tasks accepted by `submit` that have not finished yet: queued, being executed, or
+    /// in a worker's hands between its queue and `execute`
+    pending_tasks: AtomicUsize,
     active_workers: AtomicUsize,
     total_steals: AtomicUsize,
     total_execution_time_us: AtomicUsize,
@@ -277,6 +280,7 @@ impl WorkStealingExecutor {
         let stats = Arc::new(ExecutorStatsInner {
             total_executed: AtomicUsize::new(0),
             active_tasks: AtomicUsize::new(0),
+            pending_tasks: AtomicUsize::new(0),
             active_workers: AtomicUsize::new(0),
             total_steals: AtomicUsize::new(0),
             total_execution_time_us: AtomicUsize::new(0),
@@ -326,6 +330,18 @@ impl WorkStealingExecutor {
 
     /// Submit a task for execution
     pub fn submit(&self, task: Box<dyn Task>) -> Result<()> {
+        // Counted before the task becomes visible to a worker, so that it is never
+        // missing from `is_idle()` on its way from a queue to `execute`
+        self.stats.pending_tasks.fetch_add(1, Ordering::SeqCst);
+        let result = self.enqueue(task);
+        if result.is_err() {
+            self.stats.pending_tasks.fetch_sub(1, Ordering::SeqCst);
+        }
+        result
+    }
+
+    /// Put a task into a worker queue or the global queue
+    fn enqueue(&self, task: Box<dyn Task>) -> Result<()> {
         // Try to submit to a worker queue first
         let worker_id = self.next_worker.fetch_add(1, Ordering::Relaxed) % self.workers.len();
 
@@ -454,6 +470,7 @@ impl WorkStealingExecutor {
                         .fetch_add(execution_time, Ordering::Relaxed);
                     stats.total_executed.fetch_add(1, Ordering::Relaxed);
                     stats.active_tasks.fetch_sub(1, Ordering::Relaxed);
+                    stats.pending_tasks.fetch_sub(1, Ordering::SeqCst);
                 }
                 None => {
                     idle_count += 1;
@@ -527,7 +544,9 @@ impl WorkStealingExecutor {
 
     /// Check if the executor is idle (no active or queued tasks)
     pub fn is_idle(&self) -> bool {
-        self.stats.active_tasks.load(Ordering::Relaxed) == 0 && self.total_queued() == 0
+        // A task a worker has taken out of its queue and not yet started is neither
+        // queued nor active; `pending_tasks` covers it from `submit` until it has finished
+        self.stats.pending_tasks.load(Ordering::SeqCst) == 0
     }
 }
 
